@@ -54,6 +54,10 @@ func Normalize(zone string) (string, error) {
 	if err != nil {
 		return "", fmt.Errorf("acme: error converting zone to ascii: %w", err)
 	}
+	if strings.HasPrefix(uni, ".") || strings.HasSuffix(uni, ".") || strings.Contains(uni, "..") {
+		// e.g. the punycode label "xn--" decodes to an empty label
+		return "", fmt.Errorf("acme: zone contains an empty label")
+	}
 	invalid := nonDnsRegex.FindStringIndex(uni)
 	if len(invalid) > 0 {
 		return "", fmt.Errorf("acme: zone contains invalid dns characters")
